@@ -327,6 +327,60 @@ theorem assigned_restored_partial (d : Dir) (A : List Nat) (now : Int) (m : Bool
   simp only [keptIn, List.any_eq_true]
   exact ⟨g, hg, by simp [hb, ha r halive]⟩
 
+/-- **trash_purge_rule** for the whole cleanup (partial): a trashed file leaves the trash only if a repository alive in
+    it has a trashed shard older than 24 h or an indexed copy (purge), or is assigned (restore) — provided no index file
+    carries its name (otherwise the known finding C32-fresh-trash-replaced-same-basename applies: trashing the
+    same-named index shard replaces it) -/
+theorem trash_purge_rule_partial (d : Dir) (A : List Nat) (now : Int) (m : Bool) (H2 : TrashNamesUnique d)
+    (f : File) (hf : f ∈ d.trash) (hdisj : ∀ g ∈ d.index, sameBase g f.compound f.key = false) :
+    TKept f (cleanup d A now m).trash ∨
+      (∃ id, aliveIn f id = true ∧ (oldInTrash d now id = true ∨ searchable d.index id = true)) ∨
+      (∃ id, aliveIn f id = true ∧ id ∈ A) := by
+  have hph1 := trash_purge_rule_phase1 d now H2 f hf
+  by_cases hj : ∃ id, aliveIn f id = true ∧ (oldInTrash d now id = true ∨ searchable d.index id = true)
+  · exact Or.inr (Or.inl hj)
+  have hk : TKept f (phase1 now (getShards d.index false) (getShards d.trash true) d).1.trash := by
+    rcases hph1 with h | h
+    · exact h
+    · exact absurd h hj
+  by_cases hA : ∃ id, aliveIn f id = true ∧ id ∈ A
+  · exact Or.inr (Or.inr hA)
+  left
+  have e0 : (cleanup d A now m).trash =
+      (phase5 now m
+        (phase4 A (phase1 now (getShards d.index false) (getShards d.trash true) d).2
+          (phase2 (getShards d.index false) (phase1 now (getShards d.index false) (getShards d.trash true) d).2 (getTombs d.index))
+          (phase3 m (getShards d.index false) (phase1 now (getShards d.index false) (getShards d.trash true) d).1).1
+          (phase3 m (getShards d.index false) (phase1 now (getShards d.index false) (getShards d.trash true) d).1).2).2
+        (phase4 A (phase1 now (getShards d.index false) (getShards d.trash true) d).2
+          (phase2 (getShards d.index false) (phase1 now (getShards d.index false) (getShards d.trash true) d).2 (getTombs d.index))
+          (phase3 m (getShards d.index false) (phase1 now (getShards d.index false) (getShards d.trash true) d).1).1
+          (phase3 m (getShards d.index false) (phase1 now (getShards d.index false) (getShards d.trash true) d).1).2).1).trash := rfl
+  rw [e0]
+  have pm := phase1_map now (getShards d.index false) (getShards d.trash true) d
+  generalize phase1 now (getShards d.index false) (getShards d.trash true) d = P1 at pm hk ⊢
+  have p3 := phase3_facts m (getShards d.index false) P1.1 (fun e he s hs => (getShards_sound d.index false e he s hs).2.1)
+  generalize phase3 m (getShards d.index false) P1.1 = P3 at p3 ⊢
+  -- phase 4 restores only assigned repositories, none of which is alive in f
+  have k4 := tkept_phase4 (f := f) A P1.2 (phase2 (getShards d.index false) P1.2 (getTombs d.index)) P3.1 P3.2 (by
+    intro id hid sh hg s hs hoff
+    obtain ⟨e', he', h1, h2⟩ := mapGet_some_mem P1.2 id sh hg
+    obtain ⟨_, _, g, hg', hb, ha⟩ := getShards_sound d.trash true e' (pm.1.subset he') s (by rw [h2]; exact hs)
+    rw [sameBase_iff] at hb
+    have hgf : g = f := H2 g hg' f hf (hb.1.trans hoff.1) (hb.2.trans hoff.2)
+    exact hA ⟨id, by rw [← hgf, ← h1]; exact ha, hid⟩) (by rw [p3.2.1]; exact hk)
+  have m4 := phase4_map_sub A P1.2 (phase2 (getShards d.index false) P1.2 (getTombs d.index)) P3.1 P3.2
+  generalize phase4 A P1.2 (phase2 (getShards d.index false) P1.2 (getTombs d.index)) P3.1 P3.2 = P4 at k4 m4 ⊢
+  have hsub : ∀ e ∈ P4.2, e ∈ getShards d.index false := by
+    intro e he
+    have := (m4 e he).1; rw [p3.2.2.2] at this; exact (List.mem_filter.mp this).1
+  apply tkept_phase5 now m P4.2 P4.1
+    (fun e he s hs => (getShards_sound d.index false e (hsub e he) s hs).2.1) _ k4
+  intro e he s hs hoff
+  obtain ⟨_, _, g, hg, hb, _⟩ := getShards_sound d.index false e (hsub e he) s hs
+  have := hdisj g hg
+  rw [← hoff.1, ← hoff.2, hb] at this; cases this
+
 /-! ### the full statement is false on the model: a compound shard that still holds assigned repositories is deleted -/
 
 /-- DESIGN §8 / known finding C32-compound-shard-deleted-whole, shard merging off: compound {1,2,3}, assigned {1,2} -/
